@@ -1298,8 +1298,9 @@ fn start_net() -> Net {
     let l3 = std::net::TcpListener::bind("127.0.0.1:0").unwrap();
     let a3 = l3.local_addr().unwrap().to_string();
     let srv3 = repe::Server::new(make_router())
-        .read_timeout(Some(std::time::Duration::from_secs(25)))
-        .write_timeout(Some(std::time::Duration::from_secs(25)))
+        // (set, but far longer than any run: an idle client connection must not be closed under the harness)
+        .read_timeout(Some(std::time::Duration::from_secs(3600)))
+        .write_timeout(Some(std::time::Duration::from_secs(3600)))
         .tcp_nodelay(true);
     std::thread::spawn(move || {
         let _ = srv3.serve(l3);
